@@ -137,7 +137,21 @@ func (g *Gen) ClosureProgram() *Chunk {
 				Assign1(N(c), Bin("+", N(c), Num(1))),
 				Local1(v, Bin("*", N(c), Num(7))),
 				push(bump(v)), push(getter(v)),
-			), Cond: Bin(">=", N(v), Num(14))})
+			), Cond: func() Expr {
+				// the loop is left through every kind of jump the condition compiles to
+				done := Bin(">=", N(v), Num(14))
+				switch g.R.Intn(5) {
+				case 0:
+					return Bin("or", done, Bin(">", N(c), Num(5)))
+				case 1:
+					return Bin("or", Bin(">", N(c), Num(5)), done)
+				case 2:
+					return Un("not", &EParen{X: Bin("and", Bin("<", N(v), Num(14)), Bin("<", N(c), Num(6)))})
+				case 3:
+					return Bin("and", done, Bin(">=", N(c), Num(2)))
+				}
+				return done
+			}()})
 		case 15: // a break that is compiled before the closure which captures the local, and executed after it (through a backward goto)
 			first, again := g.fresh("first"), g.fresh("Lagain")
 			b.Stmts = append(b.Stmts, &SWhile{Cond: &ETrue{}, Body: Blk(
@@ -256,8 +270,17 @@ func (g *Gen) ClosureProgram() *Chunk {
 					&SCall{Call: Call(Dot(N("coroutine"), "yield"), N(v))},
 					Assign1(N(v), Bin("+", N(v), Num(100))),
 					func() Stmt {
-						if g.R.Intn(2) == 0 {
+						switch g.R.Intn(5) {
+						case 0, 1:
 							return CallSN("error", Str("Eco"))
+						case 2:
+							// the body ends by tail-calling a host function
+							g.cover("exit:coroutine-body-tailcalls-host-function")
+							return Return(CallN("hostret", Num(1), N(v)))
+						case 3:
+							// ... by a tail-called yield: the next resume's values are the body's results
+							g.cover("exit:coroutine-body-tail-yield")
+							return Return(Call(Dot(N("coroutine"), "yield"), N(v)))
 						}
 						return Return(N(v))
 					}(),
@@ -266,6 +289,9 @@ func (g *Gen) ClosureProgram() *Chunk {
 			b.Stmts = append(b.Stmts, g.reuseRegs()...)
 			b.Stmts = append(b.Stmts, CallSN("emit", Str("suspended"), Call(Idx(N(fs), Un("#", N(fs)))), Call(Idx(N(fs), Bin("-", Un("#", N(fs)), Num(1))))))
 			b.Stmts = append(b.Stmts, CallSN("emit", Str("resume2"), &EParen{X: Call(Dot(N("coroutine"), "resume"), N(co))}, Call(Dot(N("coroutine"), "status"), N(co))))
+			// (a tail-yield is pending now for one of the endings: its resume values must not land on the captured variable)
+			b.Stmts = append(b.Stmts, CallSN("emit", Str("resume3"), Call(Dot(N("coroutine"), "resume"), N(co), Num(777), Num(888), Num(999))),
+				CallSN("emit", Str("after-resume3"), Call(Idx(N(fs), Un("#", N(fs)))), Call(Idx(N(fs), Bin("-", Un("#", N(fs)), Num(1))))))
 		case 9: // sibling closures sharing an upvalue of an upvalue (3 levels)
 			mk := g.fresh("mk")
 			b.Stmts = append(b.Stmts,
